@@ -12,7 +12,12 @@ bind = {}
 for a in args[1:]:
     k, v = a.split('=', 1)
     bind[k] = T.const(ast.literal_eval(v))
-ev = evaluate(P, args[0], bind=bind, mode='join' if '--join' in sys.argv else 'fork')
+class _Ctx(object):
+    def __init__(self, P):
+        self.P = P
+        self.functions = set()
+from sa.rules import default_inline
+ev = evaluate(P, args[0], bind=bind, mode='join' if '--join' in sys.argv else 'fork', inline=None if '--no-inline' in sys.argv else default_inline(_Ctx(P)))
 print(len(ev.paths), 'paths')
 for p in ev.paths:
     print(p.kind.upper(), T.show(p.value))
